@@ -17,7 +17,8 @@ BARE_OK = set("abcdefghijklmnopqrstuvwxyzABCDEFGHIJKLMNOPQRSTUVWXYZ0123456789_.:
 def can_bare(v):
     if not v:
         return False
-    return all(ch in BARE_OK for ch in v)
+    # a slash is an ordinary character of an unquoted word as long as no comment starts ("//"; "*" is never written bare)
+    return all(ch in BARE_OK or ch == "/" for ch in v) and "//" not in v
 
 
 def render_dq(v, raw_newline=True):
@@ -131,7 +132,7 @@ BOOL_OK = ["true", "false", "yes", "no", "on", "off", "True", "FALSE", "Yes", "o
 BOOL_BAD = ["0", "1", "tru", "", "yess", "nope"]
 STR_POOL = ["a", "hello", "x y", "", "a\"b", "back\\slash", "it's", "new\nline", "tab\there", "#nocomment", "//no",
             "/*no*/", "{brace}", "a,b", "(p)", "k=v", "+=", "$", "${", "$HOME", "\xe9t\xe9", "\x01\x7f", "a|b", "'", "\\",
-            "trailing ", " leading", "C:\\dir", "^\\d+\\.$", "semi;colon", "0", "true", "very long " * 8]
+            "trailing ", " leading", "/tmp/", "a/", "/", "/etc/x.conf", "C:\\dir", "^\\d+\\.$", "semi;colon", "0", "true", "very long " * 8]
 
 sep = st.sampled_from([" ", " ", " ", "\n", "\n", "  ", "\t", " \n ", "\n\n", " \t "])
 form = st.sampled_from(["bare", "bare", "dq", "sq", "dqn"])
